@@ -244,8 +244,10 @@ def generic(prop, configs_fn, rule, tier_arg=None, extra=None):
     tier, seed = tier_and_seed(tier_arg)
     t0 = time.time()
     res = GenResult()
+    # the prebuilt patterns are assembled through class unions, i.e. through Python sets: every state runs under several hash seeds
+    hs = (0, 2, 5) if tier == 'quick' else (0, 1, 2, 5, 6, 10)
     run_generated(configs_fn(tier, seed), 'harness.judge_meta.judge', {'prop': prop, 'facets': ['exact', 'matches', 'crash', 'compile', 'exc']},
-                  seeds=(0,), mode='rr', batch=200, result=res)
+                  seeds=hs, mode='all', batch=200, result=res)
     if prop in ARGS_CTORS:
         run_ctor_space(tier, seed, (0,), res, prop=prop, facets=('crash', 'exc', 'accepted', 'compile'), ctors=ARGS_CTORS[prop])
     extra_cov = {}
@@ -255,7 +257,7 @@ def generic(prop, configs_fn, rule, tier_arg=None, extra=None):
     cov = {'states': res.states, 'transitions': res.transitions, 'traces_validated_against_impl': st.get('cases', 0),
            'evaluations': st.get('cases', 0), 'distinct_nontrivial': st.get('nontrivial', 0), 'rule': rule,
            'samples': res.agg.samples[:8], 'tlc_runs': res.runs,
-           'facet_counts': {k[6:]: v for k, v in st.items() if k.startswith('facet:')}, 'exhaustive': True}
+           'facet_counts': {k[6:]: v for k, v in st.items() if k.startswith('facet:')}, 'exhaustive': True, 'hash_seeds': list(hs)}
     cov.update(extra_cov)
     return report(prop, tier, seed, res.agg.failures, cov, time.time() - t0, ASSUME, res.model_violations)
 
@@ -277,10 +279,24 @@ def check_C17(tier=None):
     return generic('C17', word_configs, RULE, tier)
 
 
+def _c18_extra(tier, seed, res):
+    import shutil
+    import tempfile
+    from . import ipproduct
+    from .tlc import scratch_root
+    cov = ipproduct.run(tier, seed, res)
+    d = tempfile.mkdtemp(prefix='pregex-verif.ipfile.', dir=scratch_root())
+    try:
+        cov['long_file_probe'] = ipproduct.file_probe(res, d)
+    finally:
+        shutil.rmtree(d, ignore_errors=True)
+    return cov
+
+
 def check_C18(tier=None):
     from . import ipproduct
     return generic('C18', ip_configs, RULE + '; plus language equality of the emitted extensible IPv4/IPv6 patterns with the reference '
-                   'automata by product exploration in TLC (all strings)', tier, extra=ipproduct.run)
+                   'automata by product exploration in TLC (all strings); plus addresses across block boundaries of a 140 000-character file', tier, extra=_c18_extra)
 
 
 def check_C19(tier=None):
